@@ -10,27 +10,30 @@ A value of any model type travels as the list of its numbers in declaration orde
 Type tags: `p0..p8` `PolyK`, `pn` `PolyN`, `l0..l8` `Log<PolyK>`, `i0..i8` `IntOfLog<PolyK>`, `q4` `IntOfLogPoly4`.
 -/
 
-class Codec (T : Type) where
-  dec : List FX → Option T
+class Codec (T : Type) (F : outParam Type) where
+  dec : List F → Option T
 
-instance : Codec (Poly0 FX) := ⟨fun | [a] => some ⟨a⟩ | _ => none⟩
-instance : Codec (Poly1 FX) := ⟨fun l => (Arr2.ofList? l).map Poly1.mk⟩
-instance : Codec (Poly2 FX) := ⟨fun l => (Arr3.ofList? l).map Poly2.mk⟩
-instance : Codec (Poly3 FX) := ⟨fun l => (Arr4.ofList? l).map Poly3.mk⟩
-instance : Codec (Poly4 FX) := ⟨fun l => (Arr5.ofList? l).map Poly4.mk⟩
-instance : Codec (Poly5 FX) := ⟨fun l => (Arr6.ofList? l).map Poly5.mk⟩
-instance : Codec (Poly6 FX) := ⟨fun l => (Arr7.ofList? l).map Poly6.mk⟩
-instance : Codec (Poly7 FX) := ⟨fun l => (Arr8.ofList? l).map Poly7.mk⟩
-instance : Codec (Poly8 FX) := ⟨fun l => (Arr9.ofList? l).map Poly8.mk⟩
-instance : Codec (PolyN FX) := ⟨fun l => some ⟨l⟩⟩
-instance {T : Type} [Codec T] : Codec (Log T) := ⟨fun l => (Codec.dec l).map Log.mk⟩
-instance {T : Type} [Codec T] : Codec (IntOfLog FX T) :=
+section
+variable {F : Type}
+instance : Codec (Poly0 F) F := ⟨fun | [a] => some ⟨a⟩ | _ => none⟩
+instance : Codec (Poly1 F) F := ⟨fun l => (Arr2.ofList? l).map Poly1.mk⟩
+instance : Codec (Poly2 F) F := ⟨fun l => (Arr3.ofList? l).map Poly2.mk⟩
+instance : Codec (Poly3 F) F := ⟨fun l => (Arr4.ofList? l).map Poly3.mk⟩
+instance : Codec (Poly4 F) F := ⟨fun l => (Arr5.ofList? l).map Poly4.mk⟩
+instance : Codec (Poly5 F) F := ⟨fun l => (Arr6.ofList? l).map Poly5.mk⟩
+instance : Codec (Poly6 F) F := ⟨fun l => (Arr7.ofList? l).map Poly6.mk⟩
+instance : Codec (Poly7 F) F := ⟨fun l => (Arr8.ofList? l).map Poly7.mk⟩
+instance : Codec (Poly8 F) F := ⟨fun l => (Arr9.ofList? l).map Poly8.mk⟩
+instance : Codec (PolyN F) F := ⟨fun l => some ⟨l⟩⟩
+instance {T : Type} [Codec T F] : Codec (Log T) F := ⟨fun l => (Codec.dec l).map Log.mk⟩
+instance {T : Type} [Codec T F] : Codec (IntOfLog F T) F :=
   ⟨fun | k :: rest => (Codec.dec rest).map (IntOfLog.mk k) | [] => none⟩
-instance : Codec (IntOfLogPoly4 FX) :=
+instance : Codec (IntOfLogPoly4 F) F :=
   ⟨fun | [k, a, b, c, d, u] => some ⟨k, ⟨a, b, c, d⟩, u⟩ | _ => none⟩
-instance : Codec (Knot FX) := ⟨fun | [x, y] => some ⟨x, y⟩ | _ => none⟩
-instance {T : Type} [Codec T] : Codec (Segment FX T) :=
+instance : Codec (Knot F) F := ⟨fun | [x, y] => some ⟨x, y⟩ | _ => none⟩
+instance {T : Type} [Codec T F] : Codec (Segment F T) F :=
   ⟨fun | e :: rest => (Codec.dec rest).map (Segment.mk e) | [] => none⟩
+end
 
 namespace Wire
 
@@ -46,7 +49,7 @@ def f64List? (s : String) : Option (List F64) :=
   if s.isEmpty then some [] else (s.splitOn ",").mapM F64.ofHex?
 
 /-- `end:n,n;end:n,n` -/
-def segs? {T : Type} [Codec T] (s : String) : Option (List (Segment FX T)) :=
+def segs? {T : Type} [Codec T FX] (s : String) : Option (List (Segment FX T)) :=
   if s.isEmpty then some [] else
   (s.splitOn ";").mapM fun seg =>
     match seg.splitOn ":" with
